@@ -535,6 +535,8 @@ func nonNegFuncIdx(fn *ssa.Function, idx int, depth int) bool {
 	return any
 }
 
+var modLenDepth int
+
 // modLenResult: fn (single return) returns  X % Y  with X >= 0 where Y is len(recv.F) or the int field recv.F;
 // returns the canonical suffix (".F") and whether Y is a len().
 func modLenResult(fn *ssa.Function) (field string, isLen bool, ok bool) {
@@ -550,6 +552,18 @@ func modLenResult(fn *ssa.Function) (field string, isLen bool, ok bool) {
 		}
 	}
 	if len(rets) != 1 || len(rets[0].Results) != 1 {
+		return
+	}
+	// a wrapper that hands back what such a function returned for the same receiver (pos := l.GetKeyPos(key); ...; return pos)
+	if call, isC := rets[0].Results[0].(*ssa.Call); isC && modLenDepth < 3 {
+		if cf := call.Call.StaticCallee(); cf != nil && cf != fn && len(call.Call.Args) > 0 && call.Call.Args[0] == ssa.Value(fn.Params[0]) {
+			modLenDepth++
+			f2, l2, ok2 := modLenResult(cf)
+			modLenDepth--
+			if ok2 {
+				return f2, l2, true
+			}
+		}
 		return
 	}
 	bo, isB := rets[0].Results[0].(*ssa.BinOp)
